@@ -108,7 +108,7 @@ func (c *client) SendRPC(rpc hrpc.Call) (msg proto.Message, err error) {
 		switch err.(type) {
 		case region.RetryableError:
 			sp.AddEvent("retrySleep")
-			backoff, err = sleepAndIncreaseBackoff(ctx, backoff)
+			backoff, err = sleepAndIncreaseBackoffOrDone(ctx, c.done, backoff)
 			if err != nil {
 				return msg, err
 			}
@@ -119,7 +119,7 @@ func (c *client) SendRPC(rpc hrpc.Call) (msg proto.Message, err error) {
 			// should start to backoff. We don't want to overwhelm HBase.
 			if serverErrorCount > 1 {
 				sp.AddEvent("retrySleep")
-				backoff, err = sleepAndIncreaseBackoff(ctx, backoff)
+				backoff, err = sleepAndIncreaseBackoffOrDone(ctx, c.done, backoff)
 				if err != nil {
 					return msg, err
 				}
@@ -133,7 +133,7 @@ func (c *client) SendRPC(rpc hrpc.Call) (msg proto.Message, err error) {
 			// re-established, start to backoff instead of looping hot.
 			if notServingCount > 0 {
 				sp.AddEvent("retrySleep")
-				backoff, err = sleepAndIncreaseBackoff(ctx, backoff)
+				backoff, err = sleepAndIncreaseBackoffOrDone(ctx, c.done, backoff)
 				if err != nil {
 					return msg, err
 				}
@@ -370,8 +370,13 @@ func (c *client) SendBatch(ctx context.Context, batch []hrpc.Call) (
 		if needBackoff {
 			sp.AddEvent("retrySleep")
 			var err error
-			backoff, err = sleepAndIncreaseBackoff(ctx, backoff)
+			backoff, err = sleepAndIncreaseBackoffOrDone(ctx, c.done, backoff)
 			if err != nil {
+				if err == ErrClientClosed {
+					for _, rpc := range retries {
+						res[rpcToRes[rpc]] = hrpc.RPCResult{Error: err}
+					}
+				}
 				break
 			}
 		} else {
@@ -1108,6 +1113,14 @@ var sleepAndIncreaseBackoffOverride func(
 	ctx context.Context, backoff time.Duration) (time.Duration, error)
 
 func sleepAndIncreaseBackoff(ctx context.Context, backoff time.Duration) (time.Duration, error) {
+	return sleepAndIncreaseBackoffOrDone(ctx, nil, backoff)
+}
+
+// sleepAndIncreaseBackoffOrDone also ends the sleep, with ErrClientClosed, when
+// done (the client's done channel, may be nil) is closed: a call that is
+// retrying does not outlive Close by up to a whole backoff.
+func sleepAndIncreaseBackoffOrDone(ctx context.Context, done <-chan struct{},
+	backoff time.Duration) (time.Duration, error) {
 	if sleepAndIncreaseBackoffOverride != nil {
 		return sleepAndIncreaseBackoffOverride(ctx, backoff)
 	}
@@ -1119,6 +1132,8 @@ func sleepAndIncreaseBackoff(ctx context.Context, backoff time.Duration) (time.D
 	case <-time.After(backoff):
 	case <-ctx.Done():
 		return 0, ctx.Err()
+	case <-done:
+		return 0, ErrClientClosed
 	}
 
 	// Keep track of the amount of time spend sleeping in retry backoff. Ignore if context was
